@@ -65,7 +65,18 @@ fn ops() -> Vec<Op> {
 }
 
 fn vals_of_call(cc: &Covercrypt, msk: &Mutex<MasterSecretKey>, mpk: &MasterPublicKey, k: usize, out: &mut Vec<String>) -> Result<(), String> {
-    match k % 7 {
+    match k % 8 {
+        // REJECTED calls between successful ones: a refused call must not disturb what the next call draws
+        7 => { if cc.encaps(mpk, &ap("D::zz")).is_ok() { return Err("encapsulation for an unknown attribute succeeded".into()); }
+            let (s, e) = cc.encaps(mpk, &ap("D::a")).map_err(|e| e.to_string())?; let b = e.serialize().unwrap();
+            out.push(format!("VAL secret {}", hex(&*s))); out.push(format!("VAL tag {}", hex(&b[..16]))); out.push(format!("VAL trap {}", hex(&b[17..17 + PT])));
+            { let mut m = msk.lock().unwrap(); if cc.generate_user_secret_key(&mut m, &ap("Z::z")).is_ok() { return Err("key generation for an unknown dimension succeeded".into()); }
+              if cc.rekey(&mut m, &ap("D::zz")).is_ok() { return Err("rekey of an unknown attribute succeeded".into()); } }
+            let (s, h) = EncryptedHeader::generate(cc, mpk, &ap("D::a"), Some(b"same metadata"), None).map_err(|e| e.to_string())?;
+            out.push(format!("VAL secret {}", hex(&*s))); out.push(format!("VAL nonce {}", hex(&h.encrypted_metadata.clone().unwrap()[..12])));
+            if cc.encaps(mpk, &ap("D::zz")).is_ok() { return Err("encapsulation for an unknown attribute succeeded".into()); }
+            let (s, e) = cc.encaps(mpk, &ap("D::a")).map_err(|e| e.to_string())?; let b = e.serialize().unwrap();
+            out.push(format!("VAL secret {}", hex(&*s))); out.push(format!("VAL tag {}", hex(&b[..16]))); }
         6 => { let m = msk.lock().unwrap(); let cur = m.mpk().map_err(|e| e.to_string())?;
             let (s0, e0) = cc.encaps(&cur, &ap("D::a")).map_err(|e| e.to_string())?; let b0 = e0.serialize().unwrap();
             out.push(format!("VAL secret {}", hex(&*s0))); out.push(format!("VAL tag {}", hex(&b0[..16])));
@@ -166,7 +177,7 @@ fn main() {
                                 }
                             }
                             // cheap calls (encaps, PKE, header) dominate; key generation / rekey / recaps grow the master key and run every 20th call
-                            let kk = if stress { k + ti } else if k % 20 == 19 { [3, 4, 6][(k / 20) % 3] } else { [0, 1, 2][k % 3] };
+                            let kk = if stress { k + ti } else if k % 20 == 19 { [3, 4, 6][(k / 20) % 3] } else { [0, 1, 2, 7][k % 4] };
                             // own master key per thread for the mutating calls (distinct key objects), shared instance
                             if let Err(e) = vals_of_call(&cc, &msk, &mpk, kk, &mut out) { errs.push(e); }
                         }
@@ -181,6 +192,24 @@ fn main() {
                     }
                 }
             }
+        }
+        // ae N: the DEM interface itself (traits::AE for Aes256Gcm), N encryptions under ONE key of ONE plaintext (and N of
+        // an empty one): the nonces must be pairwise distinct although key and plaintext repeat
+        Some("ae") => {
+            use cosmian_cover_crypt::traits::AE;
+            let n: usize = a[2].parse().unwrap();
+            let cc = Covercrypt::default();
+            let key = SymmetricKey::<32>::try_from_bytes([7u8; 32]).unwrap();
+            for pt in [&b"same plaintext"[..], &b""[..]] {
+                for _ in 0..n {
+                    match <Aes256Gcm as AE<32>>::encrypt(&mut *cc.rng(), &key, pt) {
+                        Ok(c) => { println!("VAL nonce {}", hex(&c[..12]));
+                            if <Aes256Gcm as AE<32>>::decrypt(&key, &c).map(|p| p.to_vec()).ok().as_deref() != Some(pt) { println!("FAIL AE round trip"); } }
+                        Err(e) => println!("FAIL AE encrypt: {e}"),
+                    }
+                }
+            }
+            println!("OK thread 0 finished");
         }
         // recaps T N: ONE instance, ONE master key / public key / original encapsulation (after a rekey) shared by T threads
         // that re-encapsulate it N times each at the same moment: every result is a NEW secret and a NEW encapsulation
@@ -227,7 +256,7 @@ fn main() {
                     let (msk, mpk) = setup(&cc);
                     out.push(format!("VAL setup {}", hex(&mpk.serialize().unwrap()[1..1 + PT])));
                     let msk = Mutex::new(msk);
-                    for k in 0..n { if let Err(e) = vals_of_call(&cc, &msk, &mpk, kind.unwrap_or([0, 1, 2, 6, 3, 4][k % 6]), &mut out) { errs.push(e); } }
+                    for k in 0..n { if let Err(e) = vals_of_call(&cc, &msk, &mpk, kind.unwrap_or([0, 1, 2, 6, 3, 4, 7][k % 7]), &mut out) { errs.push(e); } }
                     (out, errs) }) }).collect();
                 ws.into_iter().map(|w| w.join()).collect::<Vec<_>>()
             })).collect();
